@@ -215,6 +215,154 @@ func (ep *Episode) Init() error {
 	return nil
 }
 
+// InitVolatile creates a VolatileSession (the library's own in-memory store,
+// not observable) and starts nothing yet.
+func (ep *Episode) InitVolatile() error {
+	ep.Cfg.Dialer = ep.W.Dialer()
+	ep.F.install(ep.W)
+	cfg := ep.Cfg
+	cl, err := mqtt.VolatileSession("verif-client", &cfg)
+	if err != nil {
+		return err
+	}
+	ep.D = sim.NewDriver(ep.W, cl, &ep.Marker, 0)
+	return nil
+}
+
+// analyzeVolatile applies what can be judged without seeing the store: whole
+// packets, PUBREL only for an identifier whose PUBREC was delivered, no PUBLISH
+// of an exactly-once message once its PUBREL went out, completion only after
+// the final acknowledgement, and at idle everything completed and delivered.
+func analyzeVolatile(ep *Episode, allPubs []*sim.Pub, final bool) *pubAnalysis {
+	w := ep.W
+	w.Mu.Lock()
+	defer w.Mu.Unlock()
+	a := &pubAnalysis{ep: ep, pubs: map[int]*pubInfo{}, byKey: map[uint][]*pubInfo{}}
+	for _, p := range allPubs {
+		a.pubs[p.N] = &pubInfo{pub: p}
+	}
+	type idUse struct {
+		n       int   // marker
+		first   int64 // first byte of its first PUBLISH
+		relSeq  int64 // first PUBREL written
+		recSeq  int64 // PUBREC delivered
+		doneSeq int64 // final acknowledgement delivered
+	}
+	uses := map[uint16][]*idUse{} // per identifier, in order of use
+	cur := func(id uint16) *idUse {
+		if l := uses[id]; len(l) > 0 {
+			return l[len(l)-1]
+		}
+		return nil
+	}
+	type ev struct {
+		seq int64
+		p   *wire.Packet
+		out bool
+		ci  int
+	}
+	var evs []ev
+	for _, c := range w.Conns {
+		pk, _, err := wire.ParseStream(c.Out, true)
+		if err != nil {
+			a.violate("C08", "malformed-outbound-stream", "conn %d: %v", c.Idx, err)
+		}
+		a.out = append(a.out, pk)
+		for _, p := range pk {
+			evs = append(evs, ev{c.SeqOfOut(p.Offset + 1), p, true, c.Idx})
+		}
+		ik, _, _ := wire.ParseStream(c.In[:c.InPos], false)
+		a.in = append(a.in, ik)
+		for _, p := range ik {
+			evs = append(evs, ev{c.SeqOfIn(p.Offset + len(p.Raw)), p, false, c.Idx})
+		}
+	}
+	sort.SliceStable(evs, func(i, j int) bool { return evs[i].seq < evs[j].seq })
+	byMarker := map[int]*idUse{}
+	for _, e := range evs {
+		p := e.p
+		switch {
+		case e.out && p.Type == wire.PUBLISH && p.QoS > 0:
+			n := markerOfTopic(p.Topic)
+			pi := a.pubs[n]
+			if pi == nil {
+				a.violate("C01", "unknown-packet-on-wire", "conn %d carries %s which matches no message", e.ci, p)
+				continue
+			}
+			u := byMarker[n]
+			if u == nil {
+				if prev := cur(p.ID); prev != nil && prev.doneSeq == 0 {
+					a.violate("C17", "identifier-reused-in-flight", "identifier %#x was given to message %d at #%d while message %d still held it", p.ID, n, e.seq, prev.n)
+				}
+				u = &idUse{n: n, first: e.seq}
+				byMarker[n] = u
+				uses[p.ID] = append(uses[p.ID], u)
+				pi.key = uint(p.ID)
+			} else if uint(p.ID) != pi.key {
+				a.violate("C17", "identifier-changed", "conn %d: message %d carries identifier %#x, before %#x", e.ci, n, p.ID, pi.key)
+			}
+			if want := wire.Publish(pi.pub.Topic, pi.pub.Payload, byte(pi.pub.Level), p.ID, p.Dup, pi.pub.Retain); !bytes.Equal(want, p.Raw) {
+				a.violate("C01", "wire-differs-from-request", "conn %d: PUBLISH of message %d differs from what was requested", e.ci, n)
+			}
+			if u.relSeq != 0 {
+				a.violate("C03", "publish-after-pubrel", "conn %d: PUBLISH of exactly-once message %d written at #%d after its PUBREL went out at #%d", e.ci, n, e.seq, u.relSeq)
+			}
+			// (acknowledgement bytes handed to Read may still get dropped with the
+			// connection when an earlier packet of the same read fails; the closed
+			// exchange is what tells completion)
+			if pi.pub.ClosedSeq != 0 && pi.pub.ClosedSeq < e.seq {
+				a.violate("C01", "publish-after-completion", "conn %d: PUBLISH of message %d written at #%d after its exchange closed at #%d", e.ci, n, e.seq, pi.pub.ClosedSeq)
+			}
+		case e.out && p.Type == wire.PUBREL:
+			u := cur(p.ID)
+			if u == nil || u.recSeq == 0 || u.doneSeq != 0 && u.doneSeq < e.seq && u.relSeq == 0 {
+				a.violate("C03", "pubrel-without-pubrec", "conn %d: PUBREL %#x written at #%d without a PUBREC delivered for a message in flight under that identifier", e.ci, p.ID, e.seq)
+				continue
+			}
+			if u.relSeq == 0 {
+				u.relSeq = e.seq
+			}
+		case !e.out && p.Type == wire.PUBREC:
+			if u := cur(p.ID); u != nil && u.recSeq == 0 {
+				u.recSeq = e.seq
+			}
+		case !e.out && (p.Type == wire.PUBACK || p.Type == wire.PUBCOMP):
+			if u := cur(p.ID); u != nil && u.doneSeq == 0 {
+				u.doneSeq = e.seq
+			}
+		}
+	}
+	delivered := map[int]int{}
+	for _, d := range w.Broker.State.Deliveries {
+		delivered[markerOfTopic(d.Topic)]++
+	}
+	for _, pi := range a.pubs {
+		p := pi.pub
+		if !p.Accepted() {
+			if p.RetSeq != 0 && byMarker[p.N] != nil {
+				a.violate("C14", "refused-publish-on-wire", "publish %d returned %q yet a connection carries it", p.N, p.Err)
+			}
+			continue
+		}
+		u := byMarker[p.N]
+		if p.ClosedSeq != 0 && (u == nil || u.doneSeq == 0 || u.doneSeq > p.ClosedSeq) {
+			a.violate("C01", "exchange-closed-without-final-ack", "exchange of message %d closed at #%d without its final acknowledgement delivered before", p.N, p.ClosedSeq)
+		}
+		if p.Level == 2 && delivered[p.N] > 1 {
+			a.violate("C03", "exactly-once-delivered-twice", "exactly-once message %d was forwarded %d times by the broker", p.N, delivered[p.N])
+		}
+		if final {
+			if p.ClosedSeq == 0 {
+				a.violate("C01", "exchange-never-closed", "exchange of accepted message %d (level %d) still open at idle after faults stopped", p.N, p.Level)
+			}
+			if delivered[p.N] == 0 {
+				a.violate("C01", "accepted-never-delivered", "accepted message %d never reached the broker in full", p.N)
+			}
+		}
+	}
+	return a
+}
+
 // Adopt replaces the client by an adopted one on the same world.
 func (ep *Episode) Adopt() (warn []error, fatal error) {
 	cfg := ep.Cfg
